@@ -56,6 +56,73 @@ def is_reserved(x):
     return False
 
 
+def normal_run(x):
+    """Normal form of a run whose items are the elements of ONE source run S: the run
+    variable is S's own, and the direction says how S is traversed.  A loop written
+    `for i in range(n - 1, -1, -1): use(S[i])` produces a forward run over a counter whose
+    items are S[n-1-j]; that is the same sequence as `for e in reversed(S)`: S's own
+    variable, reversed.  (Alpha- and mirror-normalisation; nothing else is changed.)"""
+    if isinstance(x, Fold):
+        probe = Seg(x.tag, x.length, x.jvar, [x.step], x.rev)
+        n_ = normal_run(probe)
+        if n_ is probe:
+            return x
+        return Fold(x.tag, x.length, n_.jvar, x.init, x.acc, n_.items[0], n_.rev)
+    if not isinstance(x, Seg):
+        return x
+    found = set()
+
+    def scan(t):
+        if isinstance(t, tuple):
+            if len(t) == 2 and isinstance(t[0], str) and z3.is_expr(t[1]):
+                found.add((t[0], t[1]))
+            for y in t:
+                scan(y)
+        elif isinstance(t, Opaque):
+            scan(t.tag)
+            sem = t.props.get("sem")
+            if sem:
+                for y in sem[1:]:
+                    if isinstance(y, (Opaque, tuple)):
+                        scan(y)
+    for it in x.items:
+        if isinstance(it, (Opaque, tuple)):
+            scan(it)
+        elif isinstance(it, ast.AST):
+            for n_ in ast.walk(it):
+                for f_ in getattr(n_, "_fields", ()):
+                    v_ = getattr(n_, f_, None)
+                    for y in (v_ if isinstance(v_, list) else [v_]):
+                        if isinstance(y, Opaque):
+                            scan(y)
+    mention = [(nm, ix) for nm, ix in found if any(str(d) == str(x.jvar) for d in _vars_of(ix))]
+    names = {nm for nm, _ in mention}
+    idxs = {str(z3.simplify(ix)) for _, ix in mention}
+    if len(names) != 1 or len(idxs) != 1:
+        return x
+    nm, ix = mention[0]
+    own = z3.Int(f"j_{nm}")
+    n = zint(x.length)
+    if z3.simplify(ix - x.jvar).eq(z3.IntVal(0)):
+        if str(own) == str(x.jvar):
+            return x
+        return Seg(x.tag, x.length, own, [ops.subst_j(i, x.jvar, own) for i in x.items], x.rev, x.cls_note)
+    if z3.simplify(ix - (n - 1 - x.jvar)).eq(z3.IntVal(0)):
+        return Seg(x.tag, x.length, own, [ops.subst_j(i, x.jvar, z3.simplify(n - 1 - own)) for i in x.items], not x.rev, x.cls_note)
+    return x
+
+
+def _vars_of(t):
+    out = []
+    todo = [t]
+    while todo:
+        e = todo.pop()
+        if z3.is_const(e) and e.decl().kind() == z3.Z3_OP_UNINTERPRETED:
+            out.append(e)
+        todo.extend(e.children())
+    return out
+
+
 class Eval:
     def __init__(self, env=None):
         self.tr = []          # event trace (current list being appended to)
@@ -98,8 +165,9 @@ class Eval:
         """evaluate a list of expressions in order (list display / Seq contract)"""
         vals = []
         for x in lst:
+            x = normal_run(x)
             if isinstance(x, Seg):
-                evs, v = self.round_of(x, lambda: [self.expr(i) for i in x.items])
+                evs, v = self.round_of(x, lambda x=x: [self.expr(i) for i in x.items])
                 if evs:
                     self.emit("rep", x.length, x.jvar, x.rev, evs)
                 vals.append(("segvals", x.length, x.jvar, x.rev, tuple(v)))
@@ -157,11 +225,12 @@ class Eval:
         step_last(step_..(step_first(init))).  Evaluating it runs, for every round from the
         OUTERMOST inwards, what the step evaluates before its accumulator, then init, then,
         from the innermost round outwards, what the step evaluates after it."""
+        f = normal_run(f)
         marker = ("acc", tagstr(f.acc.tag))
         saved = self.abstract
 
         def abstract2(o):
-            if o is f.acc:
+            if o is f.acc or (isinstance(o, Opaque) and o.tag == f.acc.tag):  # (normalisation copies the step)
                 self.emit("accref")
                 return marker
             return saved(o)
